@@ -1,10 +1,19 @@
 (* C04 — Lexing is faithful: element boundaries and types follow IEEE 488.2 section 7
    Statements only: each theorem is closed by `exact` of a lemma proved in the *_proofs.v files. *)
-From VF Require Import Base Gen_Errors Fmt Lexer Grammar Lexer_proofs Grammar_proofs.
+From VF Require Import Base Gen_Errors Fmt Lexer Grammar Lexer_proofs Grammar_proofs Message_proofs2.
 Open Scope N_scope.
 
 Theorem C04_lex_faithful : forall m, wf_msg m = true -> tokenize (render_msg m) = Val (map IOk (tokens_of m)).
 Proof. exact lex_faithful. Qed.
+
+Theorem C04_lex_faithful_trailing_separator : forall m w, wf_msg m = true -> wf_ws w = true ->
+  tokenize (m_lead m ++ render_units (m_units m) ++ 59 :: w ++ (if m_nl m then [10] else []))
+  = Val (map IOk (tokens_of m ++ [TUnitSeparator])).
+Proof. exact lex_faithful_trailing_separator. Qed.
+
+Theorem C04_lex_empty : forall w (nl : bool), wf_ws w = true ->
+  tokenize (w ++ (if nl then [10] else [])) = Val [].
+Proof. exact lex_empty. Qed.
 
 Theorem C04_lex_total : forall input, exists ts, tokenize input = Val ts.
 Proof. exact lex_total. Qed.
@@ -101,6 +110,8 @@ Theorem C04_missing_separator_after_string : forall q body w y rest com, ((q =? 
 Proof. exact missing_separator_after_string. Qed.
 
 Print Assumptions C04_lex_faithful.
+Print Assumptions C04_lex_faithful_trailing_separator.
+Print Assumptions C04_lex_empty.
 Print Assumptions C04_lex_total.
 Print Assumptions C04_lex_params_total.
 Print Assumptions C04_lex_progress.
